@@ -86,8 +86,19 @@ def _tree_shard(arg):
                     st.violation("C12/output_prvkey/does-not-open-output-key", case, hex(Dq[0]), hex(exp[0]))
                 for li, ((v, s), path) in enumerate(leaves):
                     st.evals += 1
-                    sc, cb = tr.input_script_sig(spell[0][1], ltree, li)
                     expcb = T.control_block(Pq[0], exp[1], v, path)
+                    # the control block does not depend on how the internal key was spelled
+                    for name, ik in spell[1:]:
+                        st.evals += 1
+                        st.nontrivial += 1
+                        try:
+                            sc_, cb_ = tr.input_script_sig(ik, ltree, li)
+                        except errs as e:
+                            st.violation("C12/control-block/refused-spelling", dict(case, leaf=li, spelling=name), repr(e)[:80], expcb.hex()[:40])
+                            continue
+                        if cb_ != expcb or tr.serialize(sc_) != s:
+                            st.violation("C12/control-block/not-bip341/" + name, dict(case, leaf=li, spelling=name), cb_.hex()[:80], expcb.hex()[:80])
+                    sc, cb = tr.input_script_sig(spell[0][1], ltree, li)
                     if cb != expcb or tr.serialize(sc) != s:
                         st.violation("C12/control-block/not-bip341", dict(case, leaf=li), cb.hex(), expcb.hex())
                         continue
